@@ -209,8 +209,8 @@ Section Proofs.
   Qed.
 
   (** ** notfound and the other store failures *)
-  Theorem notfound p bs i :
-    read_id p bs = Some i -> validate (pkind p) i = true -> store (h i) = LNotFound ->
+  Theorem notfound p bs i wrapped :
+    read_id p bs = Some i -> validate (pkind p) i = true -> store (h i) = LNotFound wrapped ->
     handle p bs = (OStatus SNotFound, ghost0).
   Proof. intros Hr Hv Hs. unfold Server.handle, Server.handle_body. rewrite Hr, Hv. cbn [negb]. rewrite Hs. reflexivity. Qed.
 
@@ -435,8 +435,9 @@ Section Client.
   Qed.
 End Client.
 
-(** * Non-vacuity: a concrete store (height 30, EDS width 8; height 31 unreadable) and concrete requests *)
-Definition ex_store (hh : Z) : lookup := if hh =? 30 then LAcc (Some 8) else if hh =? 31 then LAcc None else LNotFound.
+(** * Non-vacuity: a concrete store (height 30, EDS width 8; height 31 unreadable; height 78 reported absent with a wrapped
+    error, every other height with the bare sentinel) and concrete requests *)
+Definition ex_store (hh : Z) : lookup := if hh =? 30 then LAcc (Some 8) else if hh =? 31 then LAcc None else LNotFound (hh =? 78).
 Definition ex_build (p : proto) (i : id) : built Z :=
   match p with PNd => BPanic | PRow => if a i =? 7 then BErr else BOk (a i) | _ => BOk (a i * 1000 + b i) end.
 Definition ex_sample_req : list Z := be 8 30 ++ be 2 3 ++ be 2 5.
@@ -453,6 +454,7 @@ Example server_nonvacuous :
   handle ex_store 1000 ex_build PSample (be 8 30 ++ be 2 3 ++ be 2 8) = (OStatus SInternal, mkghost 1 1 782 782) /\
   handle ex_store 1000 ex_build PSample (be 8 0 ++ be 2 3 ++ be 2 5) = (OReset, ghost0) /\
   handle ex_store 1000 ex_build PSample (be 8 77 ++ be 2 3 ++ be 2 5) = (OStatus SNotFound, ghost0) /\
+  handle ex_store 1000 ex_build PSample (be 8 78 ++ be 2 3 ++ be 2 5) = (OStatus SNotFound, ghost0) /\
   handle ex_store 1000 ex_build PSample (be 8 31 ++ be 2 3 ++ be 2 5) = (OStatus SInternal, mkghost 1 1 0 0) /\
   (* a range of the whole ODS is served; one share beyond is refused; [0, 2^32-1) asks for 2 TiB and is reset; from >= to *)
   handle ex_store (2 ^ 30) ex_build PRange (be 8 30 ++ be 4 0 ++ be 4 16) = (OPayload 16, mkghost 1 1 8192 8192) /\
